@@ -78,6 +78,21 @@ class PollLog:
         wrap_check(achan.Channel, 'chan')
         wrap_check(aconn.Connection, 'conn')
 
+        orig_ret = achan.Channel._basic_return
+
+        def basic_return(self_, frame_in):
+            s = ref.get('sched')
+            if s is None:
+                return orig_ret(self_, frame_in)
+            s.atomic_depth += 1
+            try:
+                orig_ret(self_, frame_in)
+                ev('c06_return', (self_.channel_id, frame_in.reply_code))
+            finally:
+                s.atomic_depth -= 1
+        self.saved.append((achan.Channel, '_basic_return', orig_ret))
+        achan.Channel._basic_return = basic_return
+
         # the failure record: logged when IO builds the AMQPConnectionError it appends on the same source
         # line (no pre-emption point lies between the two, so log order = visibility order)
         orig_exc = aio.AMQPConnectionError
@@ -196,6 +211,16 @@ def blocked_one(args):
             if b == 'close':                 # holds the connection lock: start it last
                 sleep(0.005)
                 threads.append(ctx.spawn(runner(i, b), 'blk%d-%s' % (i, b)))
+        if sc.get('returns'):
+            # a returned message is parked on the channel of a thread that is already waiting for its reply
+            sleep(0.012)
+            for i in sc['returns']:
+                if i in chans and names[i] in ('rpc', 'confirm', 'get'):
+                    broker.silent = False
+                    broker.send_content(chans[i].channel_id, spec.Basic.Return(reply_code=312, reply_text='NO_ROUTE', exchange='', routing_key='nowhere'),
+                                        spec.Basic.Properties(), b'r' * sc.get('return_size', 5))
+                    broker.silent = True
+            ctx.quiesce()
         sleep(sc['fault_ms'] / 1000.0)
         if sc['kind'] == 'epipe-write':
             # the failure is found by a writer: the socket is gone, the reader has not looked yet
@@ -227,7 +252,7 @@ def blocked_one(args):
 def build_trace(sc, log, threads):
     """real event history -> actions of the Lean transition system `Transport.step`"""
     evs = [(now, tid, kind, info) for (now, tid, kind, info) in log
-           if kind in ('c06_call_begin', 'c06_call_end', 'c06_poll_begin', 'c06_poll', 'c06_record', 'fault')]
+           if kind in ('c06_call_begin', 'c06_call_end', 'c06_poll_begin', 'c06_poll', 'c06_record', 'c06_return', 'fault')]
     max_ch = 1
     for (_, _, kind, info) in evs:
         if kind == 'c06_poll_begin' and info[0] != 'conn':
@@ -279,7 +304,7 @@ def build_trace(sc, log, threads):
                 continue
             pos, i, holder_then, t_begin = pending.pop(tid)
             w = waiter[i]
-            raised = info[1] is not None
+            raised = info[1] not in (None, 'AMQPMessageError')      # a deferred returned-message error is not an exit
             if raised and holder_then is not None and holder_then != i:
                 # the raising check queued for the connection lock behind a waiting holder
                 lines[pos] = 'c06.act stuck:%d' % w
@@ -307,6 +332,9 @@ def build_trace(sc, log, threads):
         elif kind == 'c06_record':
             lines.append('c06.act %s' % info[0])
             expect.append(None)
+        elif kind == 'c06_return':
+            lines.append('c06.act return:%d:%d' % (info[0], info[1]))
+            expect.append(None)
     for tid, (pos, i, _, _) in pending.items():       # a check that never returned
         lines[pos] = 'c06.act stuck:%d' % waiter[i]
     keep = [k for k, l in enumerate(lines) if l is not None]
@@ -325,10 +353,10 @@ def judge_model(rep, sc, seed, r, outs):
             field = got.split('waiters=')[1].split(' ')[w]
             model_raised = 'raised:' in field
             real = exp[2]
-            if (real is not None) != model_raised:
+            if (real not in (None, 'AMQPMessageError')) != model_raised:
                 rep.mismatch(dict(replay, line=line), 'waiter %d: %s' % (w, field), 'check_for_errors raised %r' % (real,))
                 return False
-            if real is not None and real != 'AMQPConnectionError':
+            if real not in (None, 'AMQPMessageError', 'AMQPConnectionError'):
                 rep.mismatch(dict(replay, line=line), 'waiter %d: %s' % (w, field), 'check_for_errors raised %s' % real)
                 return False
     rep.corr_cases += 1
@@ -433,6 +461,22 @@ def session_one(args):
     so = ctx.sched.sockets[-1] if ctx.sched.sockets else None
     out['bytes'] = (so.sent, so.received) if so is not None else (0, 0)
     out.pop('conn', None)
+    if sc.get('probe') and so is not None:
+        # frame boundaries of both directions (byte offsets at which a frame ends)
+        w = bytes(so.wire_out)
+        pos, sb = 8, [8]
+        while pos + 7 <= len(w):
+            size = int.from_bytes(w[pos + 3:pos + 7], 'big')
+            pos += 7 + size + 1
+            sb.append(pos)
+        from pamqp import frame as pframe
+        rb, acc = [], 0
+        for b in ctx.net.brokers[:1]:
+            for (_, d, ch, name, fr) in b.ledger:
+                if d == 'out':
+                    acc += len(pframe.marshal(fr, ch))
+                    rb.append(acc)
+        out['sent_bounds'], out['recv_bounds'] = sb, rb
     return out
 
 
@@ -471,6 +515,11 @@ def check(rep):
         if kind == 'epipe-write' and not any(b in ('idle-call',) for b in bl):
             bl.append('idle-call')
         sc = {'blockers': bl, 'kind': kind, 'fault_ms': rng.choice([0, 3, 10, 17, 25, 40]), 'idle_ms': rng.choice([5, 30, 60, 120])}
+        if rng.random() < 0.4:
+            cand = [k for k, b in enumerate(bl) if b in ('rpc', 'confirm', 'get')]
+            if cand:
+                sc['returns'] = sorted(rng.sample(cand, rng.randint(1, len(cand))))
+                sc['return_size'] = rng.choice([0, 5, 200])
         jobs.append((sc, rng.randrange(1 << 30)))
     results = par.pmap(blocked_one, jobs)
     all_lines = []
@@ -485,12 +534,13 @@ def check(rep):
         replay = {'kind': 'blocked', 'scenario': sc, 'seed': seed}
         rep.case(('blocked', repr(sc), seed), True, sample={'scenario': sc, 'threads': r['threads'], 'fault_time': r.get('fault_time')})
         rep.count('a_kind', sc['kind'])
+        rep.count('a_parked_returns', len(sc.get('returns', [])))
         for b in sc['blockers']:
             rep.count('a_blocker', b)
         judge_blocked(rep, sc, seed, r, bound, idle)
         judge_model(rep, sc, seed, r, mine)
     # ---- COSIM-b -------------------------------------------------------------------------------------
-    probe = session_one(({'kind': 'eof', 'dir': 'recv', 'offset': 10 ** 9, 'rounds': 3, 'body': 200}, 1))
+    probe = session_one(({'kind': 'eof', 'dir': 'recv', 'offset': 10 ** 9, 'rounds': 3, 'body': 200, 'probe': True}, 1))
     sent_total, recv_total = probe['bytes']
     if probe['threads'][0].get('end') != ('returned', None) or probe.get('fault_time') is not None:
         rep.violation('C06/fault-free-session-fails', 'the fault-free session ended with %r' % (probe['threads'],),
@@ -501,7 +551,17 @@ def check(rep):
             d = json.loads(path.read_text())
             if d.get('kind') == 'session':
                 jobs.append((d['scenario'], d['seed']))
-    for _ in range(400 if not thorough else 6000):
+    # every early offset and the bytes around the first frame boundaries of both directions (handshake, channel open)
+    nb = 14 if not thorough else 60
+    for d, bounds in (('recv', probe.get('recv_bounds', [])), ('sent', probe.get('sent_bounds', []))):
+        offs = set(range(0, 13))
+        for b in bounds[:nb]:
+            offs.update((b - 1, b, b + 1))
+        for off in sorted(o for o in offs if o >= 0):
+            kinds = ['eof', 'reset'] if d == 'recv' else ['epipe', 'reset']
+            for kind in (kinds if thorough or off < 13 else [rng.choice(kinds)]):
+                jobs.append(({'kind': kind, 'dir': d, 'offset': off, 'rounds': 3, 'body': 200}, rng.randrange(1 << 30)))
+    for _ in range(300 if not thorough else 6000):
         d = rng.choice(['recv', 'recv', 'sent'])
         total = recv_total if d == 'recv' else sent_total
         r = rng.random()
